@@ -44,7 +44,9 @@ pub fn ingest_stopped(kind: u8, size: u64, sent_max: u64, end: u64, offset: u64,
     if e >= V62 {
         assert!(matches!(&res, Err(x) if x.code == TransportErrorCode::FLOW_CONTROL_ERROR));
         f = 2;
-    } else if kind != 0 && (e > size || (fin && e != size)) {
+    } else if (kind != 0 && (e > size || (fin && e != size))) || (kind == 0 && fin && e < end) {
+        // RFC 9000 4.5: data beyond a known final size, a second different final size, or a final size
+        // below what has already been received
         assert!(matches!(&res, Err(x) if x.code == TransportErrorCode::FINAL_SIZE_ERROR));
         f = 4;
     } else if e > sent_max || received + new_bytes > max_data {
